@@ -9,7 +9,8 @@ CONSTANTS N = 2
   G_SCALAR = FALSE
   G_STMFIRST = TRUE
   G_CHAIN = TRUE
-  G_GLOBDEPTH = FALSE
+  G_GLOBDEPTH = TRUE
+  G_WALKDEPTH = FALSE
 INVARIANTS NoOverflow WorkBounded ChainBounded
 PROPERTY Termination
 CHECK_DEADLOCK FALSE
